@@ -618,7 +618,7 @@ func (w *Worker) opaqueFloatFn(name string, args ...*Term) Value {
 		for i := range args {
 			sorts[i] = SFP.String()
 		}
-		p.pending = append(p.pending, fmt.Sprintf("(declare-fun %s (%s) %s)\n", uf, strings.Join(sorts, " "), SFP))
+		p.emit(fmt.Sprintf("(declare-fun %s (%s) %s)\n", uf, strings.Join(sorts, " "), SFP))
 	}
 	return tFP(uf, SFP, args...)
 }
